@@ -471,6 +471,66 @@ fn merkle<B: Backend>(name: &'static str, packing: TablePacking) -> Result<Box<d
     finish::<B>(name, b, Inputs { public, private: vec![], siblings }, packing)
 }
 
+/// Arity-2 Merkle path whose SIBLING is witness-fed (logical input positions 2, 3 of the call)
+/// instead of coming from private data: leaf row, then a chained row with direction bit 1 — the
+/// executor swaps the halves, so the committed row is [sibling, running digest] and only the
+/// chaining constraint ties the upper half to the previous row's output.
+fn merkle_wfed<B: Backend>(name: &'static str, packing: TablePacking) -> Result<Box<dyn Case>, String> {
+    let cfg = B::poseidon_config().ok_or("backend has no permutation")?;
+    let d = B::D;
+    let mut b = B::new_builder();
+    let leaf: Vec<ExprId> = (0..4).map(|_| b.public_input()).collect();
+    let bitsx: Vec<ExprId> = (0..2).map(|_| b.public_input()).collect();
+    let sibx: Vec<ExprId> = (0..2).map(|_| b.public_input()).collect();
+    let root0 = b.public_input();
+    let root1 = b.public_input();
+    let bit_vals = [0u64, 1];
+    let mut st = [B::BF::ZERO; 16];
+    for (i, s) in st.iter_mut().enumerate() {
+        *s = B::BF::from_u64(2 + 3 * i as u64);
+    }
+    let mut public = limbs_of::<B>(&st);
+    public.extend(bit_vals.iter().map(|v| bf::<B>(*v)));
+    let mut out = B::perm16(st);
+    b.add_poseidon2_perm(&Poseidon2PermCall {
+        config: cfg,
+        new_start: true,
+        merkle_path: true,
+        mmcs_bit: Some(bitsx[0]),
+        mmcs_bit2: None,
+        inputs: leaf.iter().map(|x| Some(*x)).collect(),
+        out_ctl: vec![false, false],
+        return_all_outputs: false,
+        mmcs_index_sum: None,
+    })
+    .map_err(|e| format!("{e:?}"))?;
+    let (_id1, outs1) = b
+        .add_poseidon2_perm(&Poseidon2PermCall {
+            config: cfg,
+            new_start: false,
+            merkle_path: true,
+            mmcs_bit: Some(bitsx[1]),
+            mmcs_bit2: None,
+            inputs: vec![None, None, Some(sibx[0]), Some(sibx[1])],
+            out_ctl: vec![true, true],
+            return_all_outputs: false,
+            mmcs_index_sum: None,
+        })
+        .map_err(|e| format!("{e:?}"))?;
+    let sib: Vec<B::BF> = (0..2 * d).map(|i| B::BF::from_u64(70 + i as u64)).collect();
+    public.extend((0..2).map(|l| B::EF::from_basis_coefficients_slice(&sib[l * d..(l + 1) * d]).unwrap()));
+    let mut s2 = [B::BF::ZERO; 16];
+    s2[..2 * d].copy_from_slice(&sib);
+    s2[2 * d..4 * d].copy_from_slice(&out[..2 * d]);
+    out = B::perm16(s2);
+    b.connect(outs1[0].ok_or("out0")?, root0);
+    b.connect(outs1[1].ok_or("out1")?, root1);
+    let o = limbs_of::<B>(&out);
+    public.push(o[0]);
+    public.push(o[1]);
+    finish::<B>(name, b, Inputs { public, private: vec![], siblings: vec![] }, packing)
+}
+
 /// D = 1 permutation inside a higher-degree circuit (quintic): sponge `new_start` row with
 /// two CTL inputs followed by a chained row, rate outputs exposed. `connect`: the two checked
 /// outputs are connected to publics (a forged trace can re-choose them, see
@@ -632,6 +692,8 @@ pub fn catalogue() -> Vec<Spec> {
         spec!("bb4-horner-l2k3", BbD4, "ALU lanes 2, Horner pack 3", |n| horner::<BbD4>(n, TablePacking::new(2, 2).with_horner_pack_k(3))),
         spec!("kb4-arith", KbD4, "KoalaBear quartic ALU", |n| arith::<KbD4>(n, TablePacking::default())),
         spec!("kb4-challenger", KbD4, "KoalaBear D4 challenger pattern", |n| challenger::<KbD4>(n, TablePacking::default(), 1)),
+        spec!("kb4-merkle-wfed", KbD4, "arity-2 Merkle rows with a WITNESS-FED sibling: chained row, direction bit 1 (committed row = [sibling, running digest])", |n| merkle_wfed::<KbD4>(n, TablePacking::default())),
+        spec!("bb4-merkle-wfed", BbD4, "the same over BabyBear", |n| merkle_wfed::<BbD4>(n, TablePacking::default())),
         spec!("kb4-merkle", KbD4, "KoalaBear D4 Merkle rows", |n| merkle::<KbD4>(n, TablePacking::default())),
         spec!("kb5-arith", KbD5, "quintic trinomial ALU", |n| arith::<KbD5>(n, TablePacking::default())),
         spec!("kb5-horner", KbD5, "quintic trinomial Horner chain", |n| horner::<KbD5>(n, TablePacking::default())),
@@ -648,5 +710,5 @@ pub fn catalogue() -> Vec<Spec> {
 }
 
 /// Circuits of the quick tier, cheapest first (the budget cuts from the end).
-pub const QUICK: [&str; 11] =
-    ["bb1-arith", "bb1-alias", "bb1-rowalias", "bb1-horner", "bb1-horner-k4", "bb1-horner7-k4", "bb4-recompose", "bb4-challenger", "kb4-sponge-partial", "bb1-bits", "bb4-merkle"];
+pub const QUICK: [&str; 12] =
+    ["bb1-arith", "bb1-alias", "bb1-rowalias", "kb4-merkle-wfed", "bb1-horner", "bb1-horner-k4", "bb1-horner7-k4", "bb4-recompose", "bb4-challenger", "kb4-sponge-partial", "bb1-bits", "bb4-merkle"];
